@@ -153,10 +153,9 @@ func runC11(args []string) int {
 	}
 	thorough := rep.Tier() == "thorough"
 	depth := 2
-	fields := c11Fields[:3]
+	fields := c11Fields // incl. the counter: an unencrypted counter next to an encrypted field matters
 	if thorough {
 		depth = 3
-		fields = c11Fields
 	}
 	var stepAlphabet []c11Step
 	for _, f := range fields {
